@@ -13,7 +13,7 @@ From Coq Require Import List Ascii ZArith Bool.
 From CGV Require Import Base.PyBase Base.PyVal Base.NxGraph Gen.WriterGen Dialect.DialectImpl Write.WriteImpl Write.FragDefs
      Write.FragCheck Write.FormatBondingSpec.
 From CGV Require Import Frag.NDict Frag.StripImpl Frag.FragText Write.FormatStripRound.
-From CGV Require Import Write.WriteProofs Write.PathRound Write.FragRead Write.CoarseChain Write.CoarseFrags Write.CoarseGraph Write.CoarseTrack Write.CoarseGraphX Write.CoarseFragsX Write.AtomTree Write.AtomFrags Reader.Grammar Reader.ReaderImpl.
+From CGV Require Import Write.WriteProofs Write.PathRound Write.FragRead Write.CoarseChain Write.CoarseFrags Write.CoarseGraph Write.CoarseTrack Write.CoarseGraphX Write.CoarseFragsX Write.AtomTree Write.AtomFrags Write.AtomIso Reader.Grammar Reader.ReaderImpl.
 From CGV Require Import Write.WriteDefs Write.TreeDefs Write.TreeRound Write.RingRound Write.FullMachine Write.FullRound Write.FullDomain Reader.Lin.
 From Coq Require Import Permutation.
 From CGV Require Import Frag.SmilesParse Frag.SmilesSpec Frag.Template Write.TreeDefs Write.DfsProofs Write.ConnFacts.
@@ -360,6 +360,36 @@ Example C08_atom_tree_nonvacuous :
      end.
 Proof. exact atom_tree_example. Qed.
 
+(** THE PROPERTY'S STATEMENT for ring-free all-atom fragments of the finite atom domain, in one piece (Write/AtomIso.v):
+    for a connected fragment graph g as in C08_atom_tree_roundtrip whose ring-edge transcript [] satisfies the writer's
+    contract (ring-free), the text write_graph(smiles_format=True) writes is read by the model of
+    fragment_iter(all_atom=True) (up to pysmiles' hydrogen completion) as a template ISOMORPHIC to g by k |-> position of k
+    in the order of writing W: W lists exactly the nodes of g without repetition and the template has as many atoms; atom
+    [pos W k] carries k's element, charge, hydrogen count (bracket atoms), aromatic False, the fragment's name and exactly
+    k's bonding descriptors (kind, label, order) -- [template_node]; every bond u-v of g is a bond of the template between
+    the positions of u and v with g's order ([gorder] = molecule.edges[u, v].get('order', 1)), and every bond of the
+    template is such a bond of g. *)
+Theorem C08_atom_fragment_iso : forall dh sp D g,
+  (forall k, aspec_ok (sp k) = true) -> (forall k, forallb d_ok (D k) = true) ->
+  (forall n, In n g -> atom_ok dh sp D n) -> orders_ok g ->
+  forall fo a0 F start, fragment_node_parser fo [] = Ok a0 -> graph_wf g = true -> min_node g = Ok start ->
+  connected g = true -> ring_contract g (dfs_tree g) [] = true ->
+  exists txt Tm W,
+    write_graph_by (S "atomname") true dh g [] = Ok txt /\ fragment_template fo F txt = Ok Tm
+    /\ NoDup W /\ (forall k, In k W <-> In k (node_keys g)) /\ length (t_nodes Tm) = length W
+    /\ (forall k, In k (node_keys g) ->
+          nth_error W (pos W k) = Some k
+          /\ nth_error (t_nodes Tm) (pos W k)
+             = Some (template_node F (aattrs (sp k)) (match D k with [] => None | Ds => Some (map d_stored Ds) end)
+                                   (if a_bare (sp k) then None else Some (aupdate [] a0))))
+    /\ (forall u v, NxGraph.has_edge g u v = true ->
+          In (pos W u, pos W v, gorder g u v) (t_edges Tm) \/ In (pos W v, pos W u, gorder g v u) (t_edges Tm))
+    /\ (forall a b o, In (a, b, o) (t_edges Tm) ->
+          exists u v, a = pos W u /\ b = pos W v /\ NxGraph.has_edge g u v = true /\ o = gorder g u v).
+Proof. exact atom_fragment_iso_connected. Qed.
+Example C08_atom_fragment_iso_nonvacuous : connected ex_ag = true /\ ring_contract ex_ag (dfs_tree ex_ag) [] = true /\ graph_wf ex_ag = true.
+Proof. exact atom_fragment_iso_example. Qed.
+
 (** a LIST of ring-free all-atom fragments, any number, unbounded ([afrag] = name, graph, atom attributes, descriptors,
     default-H nodes; [af_ok]: name free of ',' and '=', the hypotheses of C08_atom_tree_roundtrip with the transcript "has
     default H count" = membership in the list, a non-empty graph): there are texts t_1..t_n with [af_back] = everything
@@ -444,6 +474,7 @@ Print Assumptions C08_atom_tree_roundtrip.
 Print Assumptions C08_atom_tree_transcript.
 Print Assumptions C08_atom_tree_template_iso.
 Print Assumptions C08_atom_tree_all_bonds.
+Print Assumptions C08_atom_fragment_iso.
 Print Assumptions C08_atom_tree_descriptor_dict.
 Print Assumptions C08_atom_tree_annotation_dict.
 Print Assumptions C08_atom_tree_transcript_gen.
